@@ -100,3 +100,10 @@ Theorem C15_replication_lock_order :
   existsb ReplLocksFacts.repl_self_nested Locks.gen_order = false.
 Proof. exact (conj ReplLocksFacts.repl_lock_order_acyclic ReplLocksFacts.repl_no_self_nesting). Qed.
 Print Assumptions C15_replication_lock_order.
+
+(* every explicit Lock()/RLock() in pkg/replication is released exactly once on every way out:
+   none of the ways out listed by the translator (a `return`/`continue`/`break` with the mutex
+   still locked, an Unlock on a path that has released it already) is in pkg/replication *)
+Theorem C15_replication_locks_released_exactly_once : ReplLocksFacts.repl_lock_exits = [].
+Proof. exact ReplLocksFacts.repl_locks_released_exactly_once. Qed.
+Print Assumptions C15_replication_locks_released_exactly_once.
